@@ -357,10 +357,26 @@ def input_size(flat):
 
 
 def gen_input(rng, kind=None):
-    kind = kind or rng.choice(['point', 'line', 'line', 'poly', 'poly', 'polyh', 'mpoint', 'mline', 'mpoly', 'coll'])
+    kind = kind or rng.choice(['point', 'line', 'line', 'retrace', 'poly', 'poly', 'polyh', 'mpoint', 'mline', 'mpoly', 'coll'])
     R = rng.choice([6, 12, 20, 40])
     if kind == 'point':
         g = G.gen_point(rng, R)
+    elif kind == 'retrace':
+        # a line that doubles back EXACTLY along itself (three consecutive collinear vertices, the third behind the second) in one of
+        # the eight lattice directions, vertical and horizontal included; alone, or as a dead-end spur on a longer line
+        dx, dy = rng.choice([(1, 0), (0, 1), (-1, 0), (0, -1), (1, 1), (-1, 1), (1, -1), (2, 1)])
+        a = rng.randint(2, R); b = rng.randint(1, a + 3)          # out a steps, back b steps (b > a: past the start)
+        o = (rng.randint(-R, R), rng.randint(-R, R))
+        tip = (o[0] + a * dx, o[1] + a * dy); back = (tip[0] - b * dx, tip[1] - b * dy)
+        k = rng.random()
+        if k < 0.4:
+            pts = [o, tip, back]
+        elif k < 0.7:      # spur: approach across, out and back exactly to the branching vertex, continue
+            pts = [(o[0] - 3 * dy - dx, o[1] + 3 * dx - dy), o, tip, o, (o[0] + 4 * dy, o[1] - 4 * dx)]
+        else:
+            pts = [(o[0] - 2 * dy, o[1] + 2 * dx), o, tip, back, (back[0] + 3 * dy + dx, back[1] - 3 * dx + dy)]
+        if rng.random() < 0.5: pts = pts[::-1]
+        g = ('LineString', pts); kind = 'line'
     elif kind == 'line':
         g = G.gen_line(rng, R, n=rng.randint(2, 7))
     elif kind == 'poly':
